@@ -563,6 +563,12 @@ Definition builtin (name : string) (args : list val) (kws : list (string * val))
   | "np.append" => Some (pure_ (match args with
                      | [a; b] => let fl (x : val) := match seq_payload x with Some l => flatten2 l | None => [x] end in Ok (VArr (fl a ++ fl b)%list)
                      | _ => Stuck "np.append: arity" end) w)
+  | "np.squeeze" => Some (pure_ (match args with
+                      | [a] => match seq_payload a with
+                               | Some [x] => match seq_payload x with Some [y] => Ok y | Some _ => Ok x | None => Ok x end      (* shape (1,) / (1,1) -> scalar *)
+                               | Some _ => Ok a
+                               | None => Ok a end
+                      | _ => Stuck "np.squeeze: arity" end) w)
   | "np.ones" => Some (pure_ (match args with [VInt n] => Ok (VArr (repeat (VNum (Fin 1)) (Z.to_nat n))) | _ => Stuck "np.ones" end) w)
   | "np.nan_to_num" => Some (num1 xnan_to_num args w)
   | "np.isfinite" => Some (match args with
@@ -852,6 +858,17 @@ Fixpoint eval (fuel : nat) (e : expr) (ρ : env) (w : world) {struct fuel} : res
       let argv := fst aw in let kwv := fst kw in let w1 := snd kw in
       match dotted fe ρ with
       | Some name =>
+          match (if String.eqb name "hasattr" then
+                   (* hasattr(obj, "a"): a stored attribute OR a method / property of the object's class (needs the program, not only the value) *)
+                   match argv with
+                   | [VObj cls fs; VStr a] =>
+                       Some (Ok (VBool (match field_get a fs with
+                                        | Some _ => true
+                                        | None => match methods G cls a, methods G cls ("@" ++ a) with None, None => false | _, _ => true end end), w1))
+                   | _ => None end
+                 else None) with
+          | Some r => r
+          | None =>
           match builtin name argv kwv w1 with
           | Some r => r
           | None =>
@@ -859,7 +876,7 @@ Fixpoint eval (fuel : nat) (e : expr) (ρ : env) (w : world) {struct fuel} : res
               else match globals G name with
                    | Some c => call f c None argv kwv w1
                    | None => Stuck ("unknown function " ++ name) end
-          end
+          end end
       | None =>
           match fe with
           | EAttr recv m =>
